@@ -1,8 +1,7 @@
 from vlib.core import Query
 
 ONLY = ["ONLY=w_urefcount_use,w_urefcount_release,w_shared_use,w_shared_release"]
-UW = ["S_w_urefcount_use.0:5", "S_w_urefcount_release.0:5", "S_w_shared_use.0:4", "S_w_shared_release.0:4", "dtor.0:4",
-      "after_release.0:4", "main.0:6", "main.1:4"]
+UW = ["dtor.0:4", "after_release.0:4", "main.0:8"]
 
 CLAIM = {
     "text": "Bounded model checking over ALL thread schedules of the real urefcount_use / urefcount_release (urefcount.h) and "
@@ -12,12 +11,11 @@ CLAIM = {
             "scheduling point; 2-3 threads run legitimate use/release programs and the schedule is a symbolic sequence of thread ids "
             "decided by the SAT solver. Asserted for every schedule: the destructor runs exactly once, in the final release of the last "
             "holder, and only when every other thread has completed all its operations (no reference outstanding, nobody touches the "
-            "object afterwards); for the shared memory area exactly one release returns true and it is the last holder's; every thread "
-            "terminates within the step bound.",
+            "object afterwards); for the shared memory area exactly one release returns true and it is the last holder's; (completion within the round bound is assumed; the witness twin shows it is reachable).",
     "note": "Trusted: clang 14 lowering of __atomic builtins to seq_cst atomicrmw/cmpxchg (the translator refuses anything weaker), the "
             "IR->C translator (validated every run against the real inline functions on deterministic sequential scenarios, see "
             "translation_validation in the evidence), CBMC 6.11. Memory model: sequential consistency, which is what the code requests. "
-            "Bounds: 2-3 threads, programs of <= 3 operations per thread, step bound stated per query (checked by an assertion). "
+            "Bounds: 2-3 threads, programs of <= 3 operations per thread, round (context-switch) bound stated per query. "
             "Counterexamples are replayed natively on the gcc build of the same generated code (a sequential simulation of the schedule), "
             "not on real pthreads. Not covered: hardware memory models weaker than seq_cst, more threads, upool / ubuf_block_mem dup+free "
             "under races (their refcounting goes through the two primitives above).",
@@ -27,24 +25,25 @@ CLAIM = {
 
 
 def q(name, progs, steps, shared=False, timeout=280, sample=False):
-    defs = ["NT=%d" % len(progs), "STEPS=%d" % steps] + ['PROG%d="%s"' % (i, p) for i, p in enumerate(progs)] + (["SHARED"] if shared else [])
+    defs = ["NT=%d" % len(progs), "ROUNDS=%d" % steps, "BUDGET=6"] + ['PROG%d="%s"' % (i, p) for i, p in enumerate(progs)] + (["SHARED"] if shared else [])
     return Query(name=name, harness="C09_refcount.c", defines=defs, shims=["uatomic_seq.h"], seqz=ONLY, unwind=steps + 2, unwindset=UW,
                  timeout=timeout, replay_witness=True,
                  sample={"object": "ubuf_mem_shared" if shared else "urefcount", "thread_programs": progs, "u": "use", "r": "release",
-                         "schedule": "symbolic, %d steps, every shared access a scheduling point" % steps} if sample else None)
+                         "schedule": "symbolic: %d rounds, each thread runs 0..6 shared accesses per round (solver-chosen)" % steps} if sample else None)
 
 
 def build(tier):
     quick = tier == "quick"
-    qs = [q("rc_r|r", ["r", "r"], 12, sample=True), q("rc_urr|r", ["urr", "r"], 20),
-          q("shared_r|r", ["r", "r"], 6, shared=True), q("shared_urr|urr", ["urr", "urr"], 10, shared=True, sample=True),
-          q("shared_r|r|r", ["r", "r", "r"], 8, shared=True), q("shared_urr|r|uurrr", ["urr", "r", "uurrr"], 14, shared=True)]
+    qs = [q("rc_r|r", ["r", "r"], 5, sample=True), q("rc_urr|r", ["urr", "r"], 7), q("rc_urr|urr", ["urr", "urr"], 7), q("rc_r|urr|r", ["r", "urr", "r"], 6),
+          q("shared_r|r", ["r", "r"], 4, shared=True), q("shared_urr|urr", ["urr", "urr"], 7, shared=True, sample=True),
+          q("shared_r|r|r", ["r", "r", "r"], 4, shared=True), q("shared_urr|r|uurrr", ["urr", "r", "uurrr"], 8, shared=True)]
     if not quick:
-        qs += [q("rc_urr|urr", ["urr", "urr"], 30, timeout=3000), q("rc_r|urr|r", ["r", "urr", "r"], 26, timeout=3000),
-               q("rc_r|r|r", ["r", "r", "r"], 18, timeout=3000), q("rc_ururr|r", ["ururr", "r"], 30, timeout=3000),
-               q("shared_ururr|urr|r", ["ururr", "urr", "r"], 18, shared=True, timeout=3000)]
-    meta = {"bounds": {"threads": "2-3", "operations_per_thread": "<= 3 (5 in thorough)", "step_bound": "per query (STEPS), asserted sufficient",
-                       "granularity": "one step = one shared-memory access + the local computation that follows"},
+        qs += [q("rc_urr|urr_r10", ["urr", "urr"], 10, timeout=3000), q("rc_urr|urr|r", ["urr", "urr", "r"], 8, timeout=3000),
+               q("rc_r|r|r", ["r", "r", "r"], 6, timeout=3000), q("rc_ururr|urr", ["ururr", "urr"], 10, timeout=3000),
+               q("rc_uurrr|urr|r", ["uurrr", "urr", "r"], 9, timeout=3000),
+               q("shared_ururr|urr|uurrr", ["ururr", "urr", "uurrr"], 10, shared=True, timeout=3000)]
+    meta = {"bounds": {"threads": "2-3", "operations_per_thread": "<= 3 (5 in thorough)", "context_bound": "ROUNDS per query: every schedule in which no thread is preempted more than ROUNDS times (slices of 0..6 shared accesses, a slice ends with the operation at the latest); schedules that do not complete within the bound are outside the claim",
+                       "granularity": "every shared-memory access is a possible preemption point"},
             "exhaustive": False,
             "rule": "one query per client program (tuple of per-thread use/release strings); inside a query the schedule is symbolic",
             "assumptions": ["sequential consistency (the code uses __ATOMIC_SEQ_CST everywhere; the translator checks it)",
